@@ -36,6 +36,7 @@ var oraclesFor = map[string]Oracles{
 	"C04": {StoreEveryStep: true, FinalReopen: true, PersistErrFatal: true},
 	"C07": {CollEveryStep: true, StoreEveryStep: true, Compaction: true, Handles: true},
 	"C15": {Handles: true},
+	"C09": {},
 }
 
 type runner func(t TB, p *Program)
